@@ -10,6 +10,7 @@ Variables G1 G2 : grammar.
 Variable extras : bool.
 Variable uprop : name -> option (N -> bool).
 Variable w : list byte.
+Variable Q : str -> Prop.
 Variable Inv : state_inv.
 
 Hypothesis Hsig : forall n, match find_rule G1 n, find_rule G2 n with
@@ -18,7 +19,8 @@ Hypothesis Hsig : forall n, match find_rule G1 n, find_rule G2 n with
                             | _, _ => False
                             end.
 Hypothesis Hid : forall n, rule_id G1 n = rule_id G2 n.
-Hypothesis HP1 : preserved G1 extras uprop w Inv.
+Hypothesis HP1 : preserved G1 extras uprop w Q Inv.
+Hypothesis HQ1 : forall n r, find_rule G1 n = Some r -> Forall Q (estrs (rexpr r)).
 Hypothesis Hbody : forall n r1 r2 a emit, find_rule G1 n = Some r1 -> find_rule G2 n = Some r2 ->
   refines G2 extras uprop w Inv (snd (rule_mode (is_special n) (rty r1) a emit)) (rexpr r1) (rexpr r2).
 
@@ -41,46 +43,69 @@ Proof.
   destruct (find_rule G2 n); [contradiction|reflexivity].
 Qed.
 
+(* literals of an unrolling are literals of the repeated expression *)
+Lemma seq_of_strs : forall l u, seq_of l = Some u -> forall s, In s (estrs u) -> exists e, In e l /\ In s (estrs e).
+Proof.
+  induction l as [|e r IH]; intros u H s Hs; [discriminate|].
+  destruct r as [|e2 r2].
+  - cbn in H. injection H as <-. exists e. split; [now left|exact Hs].
+  - change (seq_of (e :: e2 :: r2)) with (match seq_of (e2 :: r2) with Some x => Some (ESeq e x) | None => Some e end) in H.
+    destruct (seq_of (e2 :: r2)) as [v|] eqn:Ev.
+    + injection H as <-. cbn [estrs] in Hs. apply in_app_or in Hs. destruct Hs as [Hs|Hs].
+      * exists e. split; [now left|exact Hs].
+      * destruct (IH _ eq_refl _ Hs) as [e0 [A B]]. exists e0. split; [now right|exact B].
+    + injection H as <-. exists e. split; [now left|exact Hs].
+Qed.
+
+Lemma unroll_node_strs e u : is_bounded e = true -> unroll_node extras e = Some u -> Forall Q (estrs e) -> Forall Q (estrs u).
+Proof.
+  intros B U V. apply Forall_forall. intros s Hs. rewrite Forall_forall in V. apply V.
+  destruct e; try discriminate; cbn [unroll_node] in U; unfold repeatn in U; destruct (seq_of_strs _ _ U _ Hs) as [e0 [A C]]; cbn [estrs];
+    repeat (apply in_app_or in A; destruct A as [A|A]); try (apply repeat_spec in A; subst e0; exact C);
+    try (destruct A as [<-|[]]; exact C).
+Qed.
+
 Ltac pres1 := repeat match goal with
   | |- Inv _ _ => assumption
-  | H : bs G1 _ _ _ _ _ _ _ _ (SMatch ?p ?sg _) |- Inv ?p ?sg => apply (HP1 _ _ _ _ _ _ _ _ H)
+  | H : bs G1 _ _ _ _ _ _ _ _ (SMatch ?p ?sg _) |- Inv ?p ?sg => refine (HP1 _ _ _ _ _ _ _ _ _ H _); [cbn [jvalid estrs]; try exact I; auto|]
   end.
+Ltac jv := cbn [jvalid estrs]; try exact I; auto.
 
 Theorem transfer a emit j p sg res :
-  bs G1 extras uprop w a emit j p sg res -> Inv p sg -> bs G2 extras uprop w a emit j p sg res.
+  bs G1 extras uprop w a emit j p sg res -> jvalid Q j -> Inv p sg -> bs G2 extras uprop w a emit j p sg res.
 Proof.
-  induction 1; intros I.
+  induction 1; intros V I; cbn [jvalid estrs] in V; try (apply Forall_app in V; destruct V as [V1 V2]).
   - rewrite leaf_eval_eq by assumption. apply bs_leaf. now rewrite <- leaf_eq.
   - pose proof (Hsig n) as S. rewrite H0 in S. destruct (find_rule G2 n) as [r2|] eqn:F2; [|contradiction].
     rewrite Hid, S. apply bs_call; [now rewrite <- calls_rule_eq|exact F2|].
-    rewrite <- S. eapply Hbody; eauto.
+    rewrite <- S. eapply Hbody; eauto; try (apply IHbs; [cbn [jvalid]; eapply HQ1; eauto|auto]).
   - apply bs_seq_l; auto.
-  - eapply bs_seq; [apply IHbs1; auto|apply IHbs2; pres1|apply IHbs3; pres1].
+  - eapply bs_seq; [apply IHbs1; auto|apply IHbs2; [jv|pres1]|apply IHbs3; [jv|pres1]].
   - apply bs_cho_l; auto.
   - apply bs_cho_r; auto.
   - apply bs_opt; auto.
   - apply bs_rep_0; auto.
-  - eapply bs_rep; [apply IHbs1; auto|apply IHbs2; pres1].
+  - eapply bs_rep; [apply IHbs1; auto|apply IHbs2; [jv|pres1]].
   - apply bs_rep1x_0; auto.
-  - eapply bs_rep1x; [assumption|apply IHbs1; auto|apply IHbs2; pres1].
-  - apply bs_rep1d; auto.
-  - eapply bs_bounded; eauto.
+  - eapply bs_rep1x; [assumption|apply IHbs1; auto|apply IHbs2; [jv|pres1]].
+  - apply bs_rep1d; auto. apply IHbs; auto. cbn [jvalid estrs]. apply Forall_app; auto.
+  - eapply bs_bounded; eauto. apply IHbs; auto. cbn [jvalid]. eapply unroll_node_strs; eauto.
   - apply bs_bounded_none; auto.
   - apply bs_pos; auto.
   - apply bs_neg; auto.
   - apply bs_push; auto.
   - apply bs_tag; auto.
-  - apply bs_many_stop; auto.
-  - eapply bs_many_step; [apply IHbs1; auto|apply IHbs2; pres1].
-  - apply bs_cw_stop; auto.
-  - eapply bs_cw_step; [apply IHbs1; auto|apply IHbs2; pres1|apply IHbs3; pres1].
-  - eapply bs_rep_stop; [apply IHbs1; auto|apply IHbs2; pres1].
-  - eapply bs_rep_step; [apply IHbs1; auto|apply IHbs2; pres1|apply IHbs3; pres1].
+  - apply bs_many_stop; auto; try (apply IHbs; [jv|auto]).
+  - eapply bs_many_step; [apply IHbs1; [jv|auto]|apply IHbs2; [jv|pres1]].
+  - apply bs_cw_stop; auto; try (apply IHbs; [jv|auto]).
+  - eapply bs_cw_step; [apply IHbs1; [jv|auto]|apply IHbs2; [jv|pres1]|apply IHbs3; [jv|pres1]].
+  - eapply bs_rep_stop; [apply IHbs1; [jv|auto]|apply IHbs2; [jv|pres1]].
+  - eapply bs_rep_step; [apply IHbs1; [jv|auto]|apply IHbs2; [jv|pres1]|apply IHbs3; [jv|pres1]].
   - now apply bs_skip_atomic.
   - apply bs_skip_none; auto; now rewrite <- has_rule_eq.
-  - apply bs_skip_ws; auto; now rewrite <- has_rule_eq.
-  - apply bs_skip_cm; auto; now rewrite <- has_rule_eq.
-  - eapply bs_skip_both; auto; try (now rewrite <- has_rule_eq). apply IHbs2; pres1.
+  - apply bs_skip_ws; auto; try (now rewrite <- has_rule_eq); try (apply IHbs; [jv|auto]).
+  - apply bs_skip_cm; auto; try (now rewrite <- has_rule_eq); try (apply IHbs; [jv|auto]).
+  - eapply bs_skip_both; auto; try (now rewrite <- has_rule_eq); try (apply IHbs1; [jv|auto]); try (apply IHbs2; [jv|pres1]).
 Qed.
 
 End Transfer.
